@@ -8,6 +8,41 @@ ENV = "GOFLAGS=-mod=mod GOPROXY=off GOSUMDB=off GOTOOLCHAIN=local"
 
 # property -> (category, technique, level text, level note, design ref)
 CHECKS = {
+ "C01": ("exploration",
+   "runtime monitor: stuck-state certificate (two identical all-parked goroutine dumps with a still logical clock) + bounded-progress rule in completed render cycles, over generated terminating programs with hook-driven schedule perturbation",
+   "~1000 (quick) / ~20000 (thorough) generated terminating programs (n in 0..200 bars vs queue lengths incl. n>q, auto/manual/none, synced and slow decorators with different counts per bar, pop mode, removal, queue-after chains, priority churn, concurrent Write, render delay, user wait group, cancel/Shutdown by step or hook trigger) run against the real library under seeded delays at 15 hook points (incl. targeted single-point delays) and GOMAXPROCS 1/2/4/16; a hang is decided from goroutine states (deadlock) or from the number of completed render cycles after every bar is terminal (livelock), never from elapsed time.",
+   "unbounded 'eventually' restated as the two safety forms of DESIGN 2.4; wall-clock watchdog firing = inconclusive; schedules are sampled",
+   "DESIGN.md 2.4, 4/C01"),
+ "C02": ("exploration",
+   "runtime monitor: child-process crash attribution (panic / fatal error with a library frame), stuck-state certificate, and assertions on calls issued after Wait returned",
+   "~1000 (quick) / ~20000 (thorough) call histories over the public Progress/Bar surface with the container-done event (natural end, ctx cancel, Shutdown) placed at random steps of client programs and at hook points via triggers; each scenario runs in a worker child whose death is attributed to the scenario logged last; after Wait: late Add -> (nil, ErrDone), late Write -> (0, ErrDone), late mutators change nothing, getters stable, Bar.Wait/second Wait/Shutdown return.",
+   "Add racing a Wait whose wait group is at zero is excluded by sync.WaitGroup's own contract (an anchor bar keeps the group above zero); documented panics excluded",
+   "DESIGN.md 4/C02"),
+ "C03": ("exploration",
+   "runtime monitor: frame parser over the recorded output stream; last frame compared per bar with the post-Wait getters and the bar's on-complete/on-abort decoration spec; logical-clock check that nothing is written after Wait returned",
+   "~800 (quick) / ~16000 (thorough) auto-refresh programs with last increments, aborts, SetTotal, cancel and Shutdown racing the ticker, early refreshes and Wait itself (incl. Wait invoked while clients still run); the last output write is parsed (self-describing marker rows) and each remaining bar must appear once, in the state read back after Wait, with its on-complete / on-abort texts; removed bars absent (natural endings).",
+   "final-frame clause checked for auto-refresh containers; in manual mode only the implied 'never shown running again after terminal' form",
+   "DESIGN.md 4/C03, Appendix A"),
+ "C05": ("exploration",
+   "runtime monitor: per-frame membership oracle (once, contiguous, prompt w.r.t. cycle-exact hook timestamps, leaves only when allowed, per-bar render counter consecutive) over parsed frames; notifier list checked against the last frame",
+   "~900 (quick) / ~18000 (thorough) histories of Add (from several clients while rendering), completion, abort with/without drop, removal, pop, queue-after, n>q, with up to ~150 frames each; every frame is parsed and the Appendix-A rules 1-4 are applied per bar, using the render.begin hook timestamps to decide which cycle a frame belongs to.",
+   "bars clipped by the output height are excluded; scenarios with a render delay or a render error are not judged (membership of unseen frames unknown)",
+   "DESIGN.md 4/C05, Appendix A"),
+ "C13": ("exploration",
+   "runtime monitor: exactly-once / ordering checker over unique text payloads in the parsed output stream against the invoke/return history of Progress.Write",
+   "~800 (quick) / ~16000 (thorough) programs with 1-9 writer goroutines (lines of 1-3000 bytes, multi-line writes) interleaved with render cycles, completion, the final render and shutdown, incl. writers that keep writing until well after Wait returned; every successful Write must appear once, untorn, above the rows of its frame, in an order consistent with real-time order, by the last frame; late writes must return (0, ErrDone) and emit nothing.",
+   "'emitted by the last frame' only for auto-refresh containers once the first frame was written; manual: by the next rendered frame",
+   "DESIGN.md 4/C13"),
+ "C14": ("fault_enumeration",
+   "runtime monitor: cancel/Shutdown placed by hook trigger at enumerated (hook point x occurrence) sites and at random steps of client programs; counters in shutdown-listener decorators, notifier reader, post-Wait getters, stuck-state certificate",
+   "~800 (quick) / ~16000 (thorough) programs ended by context cancel or Shutdown placed at 13 hook points x occurrences 1-4 (mid render, between a bar's first and second terminal frame, in the heap manager, at bar exit, concurrently with Add) or at a random step; after Wait: no bar running, exactly one of Completed/Aborted, never-completed bars aborted, every listener decorator (wrapped 1-3 deep) notified exactly once, exactly one notifier value without duplicates.",
+   "a trigger that has not fired when the clients are done is overtaken by the director (reported per site in the evidence)",
+   "DESIGN.md 4/C14"),
+ "C16": ("exploration",
+   "runtime monitor: goroutine-dump poll after Wait returned and the notifier was read; a library goroutine that stays parked (same id, state, stack) over 5 polls is a leak",
+   "~800 (quick) / ~16000 (thorough) programs on normal, cancel and Shutdown paths (early refresh, pop, queued bars, n>q, manual refresh channel abandoned, traverse racing with done); after each, runtime.Stack(all) is polled until no library frame remains.",
+   "goroutines running harness callbacks are the harness' own; still-moving goroutines extend the poll and are never called leaks",
+   "DESIGN.md 4/C16"),
  "C07": ("exploration",
    "runtime monitor: width/UTF-8/termination assertions on every real Fill, Decor and rendered row for generated styles and widths; CPU-time/heap watchdog decides non-termination",
    "Real BarFiller.Fill, Decorator.Decor and whole rows (manually refreshed container) are executed for ~140k (quick) / ~2.5M (thorough) generated styles (empty, zero-width, wide, multi-rune components), widths 0..300 (0..40 swept fully), requested widths, wrappers and int64 values; each output's display width is recomputed with the harness' own table and compared with the allotted width / the reported width / the documented row layout; a call that burns >1.5 s CPU or >768 MiB heap is non-terminating.",
